@@ -9,6 +9,7 @@ import (
 	"fmt"
 	"math"
 	"math/rand"
+	"os"
 	"sort"
 	"strings"
 	"sync"
@@ -144,6 +145,7 @@ type Engine struct {
 	lastU    []ident
 	closed   bool
 	hung     bool
+	dbgSeen  int
 	step     int
 	tagN     int
 	lapseEnd int64
@@ -325,6 +327,19 @@ func (e *Engine) TraceText() string {
 }
 
 func (e *Engine) log(kind, arg, res string) {
+	if os.Getenv("VERIF_DEBUG") != "" {
+		evs := e.Ag.Events()
+		fmt.Fprintf(os.Stderr, "DEBUG step %d %s %s -> %s\n", e.step, kind, arg, res)
+		for _, ev := range evs[e.dbgSeen:] {
+			fmt.Fprintf(os.Stderr, "   wire #%d code=%d reqlen=%d replylen=%d reply0=%v kind=%d\n", ev.Idx, ev.Code, len(ev.Req), len(ev.Reply), ev.Reply[:min(len(ev.Reply), 1)], ev.Kind)
+		}
+		e.dbgSeen = len(evs)
+		if ks, err := e.Ag.Keyring.List(); err == nil {
+			for _, k := range ks {
+				fmt.Fprintf(os.Stderr, "   keyring: %s %q\n", e.describe(string(k.Blob)), k.Comment)
+			}
+		}
+	}
 	e.Trace = append(e.Trace, Op{kind, arg, res})
 	e.St.Ops[kind]++
 }
@@ -803,7 +818,16 @@ func (e *Engine) opSigners() {
 	if len(sg) > 0 {
 		s := sg[e.R.Intn(len(sg))]
 		data := gen.Bytes(e.R, 32)
+		ub2 := e.snapshotU()
+		s0 := time.Now().Unix()
 		sig, serr := s.Sign(nil, data)
+		s1 := time.Now().Unix()
+		if _, isHard := e.m[string(s.PublicKey().Marshal())]; isHard {
+			// a hardware-certificate signer signs through the shim itself (with the plain key): that is a
+			// Sign operation and runs the filter once more
+			e.filterEffect(ub2, s0, s1, nil, "Signer.Sign")
+			e.checkPurgeU(ub2, e.snapshotU(), s0, s1, "Signer.Sign", nil)
+		}
 		if serr == nil {
 			if verr := s.PublicKey().Verify(data, sig); verr != nil {
 				e.disc([]string{"C10"}, "signer-signature-does-not-verify", fmt.Sprintf("%s: %v", e.describe(string(s.PublicKey().Marshal())), verr))
